@@ -159,7 +159,9 @@ func (fx *Fx) evalPlace(st *State, e ast.Expr, spec bool) Place {
 	case *ast.CompositeLit:
 		return Place{val: fx.evalComposite(st, x, spec)}
 	case *ast.FuncLit:
-		return Place{val: Val{T: fx.typeOf(x), S: SRef, X: fx.d.freshConst("closure", SRef), Fn: &Closure{Lit: x, Env: st, Key: fx.litKey(x)}}}
+		cl := fx.d.freshConst("closure", SRef)
+		st.assume(not(app("=", cl, "nil"))) // a function literal is never nil
+		return Place{val: Val{T: fx.typeOf(x), S: SRef, X: cl, Fn: &Closure{Lit: x, Env: st, Key: fx.litKey(x)}}}
 	case *ast.TypeAssertExpr:
 		return Place{val: fx.evalTypeAssert(st, x, false)[0]}
 	}
@@ -271,7 +273,9 @@ func (fx *Fx) objectPlace(st *State, o types.Object) Place {
 		}
 		panic(unsupported("variable " + ob.Name() + " has no value on this path"))
 	case *types.Func:
-		return Place{val: Val{T: ob.Type(), S: SRef, X: fx.d.declareConst("fn_"+sanitize(ob.FullName()), SRef)}}
+		x := fx.d.declareConst("fn_"+sanitize(ob.FullName()), SRef)
+		st.assume(not(app("=", x, "nil"))) // a declared function is never a nil function value
+		return Place{val: Val{T: ob.Type(), S: SRef, X: x}}
 	}
 	panic(unsupported(fmt.Sprintf("object %s (%T)", o.Name(), o)))
 }
@@ -368,7 +372,9 @@ func (fx *Fx) evalSelector(st *State, x *ast.SelectorExpr, spec bool) Place {
 				} else {
 					recv = fx.receiverValue(st, rp, fn.Type().(*types.Signature), exprText(x.X), spec)
 				}
-				return Place{val: Val{T: sel.Type(), S: SRef, X: fx.d.freshConst("methodval_"+fn.Name(), SRef), Fn: &Closure{Recv: &recv, Key: fx.v.funcKey(fn)}}}
+				mv := fx.d.freshConst("methodval_"+fn.Name(), SRef)
+				st.assume(not(app("=", mv, "nil"))) // a method value is never nil
+				return Place{val: Val{T: sel.Type(), S: SRef, X: mv, Fn: &Closure{Recv: &recv, Key: fx.v.funcKey(fn)}}}
 			}
 			panic(unsupported("selection kind in " + exprText(x)))
 		}
